@@ -43,7 +43,8 @@ for rn, sdir, odir in rounds:
             m = {
                 "property": pid,
                 "rebased": meta.get("rebased", ""),
-                "origin": "independent sub-agent, round %s, given only the property text and a scratch worktree" % rn[1],
+                "origin": ("re-created by a sub-agent from the one-line description of the lost round %s change (tools/lost_mechanisms.json), given the property text and a scratch worktree: a regression seed, not independent of the strengthening it is named in" % rn[1]) if meta.get("reconstructed") else ("independent sub-agent, round %s, given only the property text and a scratch worktree" % rn[1]),
+                "reconstructed": bool(meta.get("reconstructed")),
                 "summary": meta.get("summary", ""),
                 "needs_to_manifest": meta.get("needs_to_manifest", ""),
                 "files_changed": meta.get("files_changed", []),
